@@ -131,6 +131,8 @@ pub enum Ev {
     /// re-define with a byte-identical script (the latest define still wins: its id stamps the results)
     CDefSame { name: usize, ctx: usize },
     CCall { name: usize, ctx: usize },
+    /// a valid definition whose closure raises an error on every call
+    CDefErr { name: usize, ctx: usize },
 }
 
 const HN: [&str; 2] = ["ha", "hb"];
@@ -244,6 +246,10 @@ pub fn run_history_t(h: &[Ev], restart_after: usize, sig: &str, tail: &[Ev]) -> 
             let f = r.append(&format!("{}.define", CN[*name]), Some(ctxs[*ctx]), Some(&format!("{{run: {{|frame| \"{}\"}}}}", tag)), None);
             m.cmds.insert((*ctx, *name), (f.id, tag));
         }
+        Ev::CDefErr { name, ctx } => {
+            let f = r.append(&format!("{}.define", CN[*name]), Some(ctxs[*ctx]), Some("{run: {|frame| error make {msg: \"boom\"}}}"), None);
+            m.cmds.insert((*ctx, *name), (f.id, "!err".to_string()));
+        }
         Ev::CDefBad { name, ctx } => {
             let f = r.append(&format!("{}.define", CN[*name]), Some(ctxs[*ctx]), Some("{run: {|frame| "), None);
             r.wait(|x| x.topic == format!("{}.error", CN[*name]) && meta_str(x, "command_id") == Some(f.id.to_string()), 20.0);
@@ -251,7 +257,7 @@ pub fn run_history_t(h: &[Ev], restart_after: usize, sig: &str, tail: &[Ev]) -> 
         Ev::CCall { name, ctx } => {
             let f = r.append(&format!("{}.call", CN[*name]), Some(ctxs[*ctx]), None, None);
             if m.cmds.contains_key(&(*ctx, *name)) {
-                r.wait(|x| x.topic == format!("{}.complete", CN[*name]) && meta_str(x, "frame_id") == Some(f.id.to_string()), 20.0);
+                r.wait(|x| (x.topic == format!("{}.complete", CN[*name]) || x.topic == format!("{}.error", CN[*name])) && meta_str(x, "frame_id") == Some(f.id.to_string()), 20.0);
             }
             m.old_calls.push(f.id);
         }
@@ -388,6 +394,17 @@ pub fn run_history_t(h: &[Ev], restart_after: usize, sig: &str, tail: &[Ev]) -> 
             }
             let call = r2.append(&format!("{}.call", CN[name]), Some(*c), None, None);
             match m.cmds.get(&(ci, name)) {
+                Some((did, tag)) if tag == "!err" => {
+                    let ans = r2.wait(|x| x.topic == format!("{}.error", CN[name]) && meta_str(x, "frame_id") == Some(call.id.to_string()), 10.0);
+                    match ans {
+                        None => fs.push(F { kind: "c17.commands.silent".into(), msg: format!("{}: command {}/ctx{} (its closure fails on every call) is not defined any more after the restart: a call gets no answer", label, CN[name], ci) }),
+                        Some(x) => {
+                            if meta_str(&x, "command_id") != Some(did.to_string()) {
+                                fs.push(F { kind: "c17.commands.definition".into(), msg: format!("{}: call of {}/ctx{} after the restart was served by {:?}, the latest definition of that context is {}", label, CN[name], ci, meta_str(&x, "command_id"), did) });
+                            }
+                        }
+                    }
+                }
                 Some((did, tag)) => {
                     let ans = r2.wait(|x| x.topic == format!("{}.recv", CN[name]) && meta_str(x, "frame_id") == Some(call.id.to_string()), 10.0);
                     match ans {
@@ -500,6 +517,9 @@ pub fn histories(thorough: bool) -> Vec<Vec<Ev>> {
         vec![CDef { name: 0, ctx: 1 }, CDef { name: 0, ctx: 0 }, CDef { name: 0, ctx: 1 }, CCall { name: 0, ctx: 1 }],
         vec![CDef { name: 0, ctx: 0 }, CDefBad { name: 0, ctx: 0 }, CDef { name: 1, ctx: 1 }, CCall { name: 0, ctx: 0 }],
         vec![CDef { name: 0, ctx: 0 }, CDefSame { name: 0, ctx: 0 }, CCall { name: 0, ctx: 0 }],
+        vec![CDefErr { name: 0, ctx: 0 }, CCall { name: 0, ctx: 0 }],
+        vec![CDef { name: 0, ctx: 0 }, CDefErr { name: 0, ctx: 0 }, CCall { name: 0, ctx: 0 }, CDef { name: 0, ctx: 1 }],
+        vec![CDefErr { name: 0, ctx: 1 }, CCall { name: 0, ctx: 1 }, CDef { name: 0, ctx: 1 }, CCall { name: 0, ctx: 1 }],
         vec![CDef { name: 0, ctx: 0 }, CDef { name: 0, ctx: 1 }, CDefSame { name: 0, ctx: 0 }, CDefSame { name: 0, ctx: 1 }],
         vec![HReg { name: 0, ctx: 0 }, GSpawn { name: 0, ctx: 0 }, CDef { name: 0, ctx: 0 }, Ping { ctx: 0 }, CCall { name: 0, ctx: 0 }],
         vec![HReg { name: 0, ctx: 1 }, GSpawn { name: 0, ctx: 1 }, CDef { name: 0, ctx: 1 }, HReg { name: 0, ctx: 0 }, GSpawn { name: 0, ctx: 0 }, CDef { name: 0, ctx: 0 }],
@@ -509,7 +529,7 @@ pub fn histories(thorough: bool) -> Vec<Vec<Ev>> {
         let alpha = vec![
             HReg { name: 0, ctx: 0 }, HReg { name: 0, ctx: 1 }, HUnreg { name: 0, ctx: 0 }, HBoom { ctx: 1 }, Ping { ctx: 0 }, HReg { name: 1, ctx: 0 }, HUnreg { name: 1, ctx: 0 },
             GSpawn { name: 0, ctx: 0 }, GSpawn { name: 0, ctx: 1 }, GSpawnBad { name: 0, ctx: 1 }, GSpawnFinite { name: 1, ctx: 1 },
-            CDef { name: 0, ctx: 0 }, CDef { name: 0, ctx: 1 }, CDefBad { name: 0, ctx: 0 }, CDefSame { name: 0, ctx: 0 }, CCall { name: 0, ctx: 0 },
+            CDef { name: 0, ctx: 0 }, CDef { name: 0, ctx: 1 }, CDefBad { name: 0, ctx: 0 }, CDefSame { name: 0, ctx: 0 }, CCall { name: 0, ctx: 0 }, CDefErr { name: 0, ctx: 0 },
         ];
         for a in &alpha {
             for b in &alpha {
